@@ -13,6 +13,7 @@
 package sim
 
 import (
+	"time"
 	"fmt"
 	"regexp"
 	"runtime"
@@ -104,6 +105,12 @@ type Config struct {
 	// other goroutine is parked or blocked then); a non-empty result is
 	// recorded as the run's first invariant violation.
 	Invariant func() string
+	// TimeHorizon: simulated time. The code under test has no timers today, but a timer (a timeout around a channel
+	// send, a sleep) inside a synctest bubble reads the bubble's fake clock, which only advances while every goroutine
+	// of the bubble is durably blocked - the scheduler loop never is. With a horizon > 0 the loop, when no task is
+	// runnable while some task is unfinished, sleeps (fake time) in growing quanta up to the horizon before it
+	// concludes "deadlock": pending timers fire, tasks blocked in a timed wait come back.
+	TimeHorizon time.Duration
 }
 
 // Result of one run.
@@ -124,6 +131,8 @@ type Result struct {
 	MaxRunnable int
 	Invariant   string // first invariant violation, with the step at which it was seen
 	Events      int64  // Stamp() calls
+	TimeJumps   int           // times the loop had to let simulated time pass because nothing was runnable
+	SimTime     time.Duration // simulated time that passed that way
 	LockWaits   int    // times a task had to wait for a sim lock held by another task
 	PreSites    []int32 // yield sites at which a preemption fired (the running task was switched out mid-operation)
 	Races       []string // lock discipline: a guarded field was accessed without its lock while another task also accesses it (one of them writing)
@@ -448,6 +457,19 @@ func (r *Runtime) runnable() []*Task {
 	return rs
 }
 
+// unfinished reports whether some task has neither exited nor is parked by the scheduler (it is blocked outside:
+// on a channel, a WaitGroup - or a timer).
+func (r *Runtime) unfinished() bool {
+	r.mu.Lock()
+	defer r.mu.Unlock()
+	for _, t := range r.tasks {
+		if t.state == stRunning {
+			return true
+		}
+	}
+	return false
+}
+
 // Loop runs the scheduler until no task is runnable. It must be called by the
 // bubble root.
 func (r *Runtime) Loop() *Result {
@@ -479,6 +501,16 @@ func (r *Runtime) Loop() *Result {
 		}
 		rs := r.runnable()
 		if len(rs) == 0 {
+			if r.cfg.TimeHorizon > 0 && r.res.SimTime < r.cfg.TimeHorizon && r.unfinished() {
+				q := time.Millisecond << uint(r.res.TimeJumps)
+				if q > time.Second || q <= 0 {
+					q = time.Second
+				}
+				time.Sleep(q) // fake clock of the bubble: jumps to the next timer once everything is blocked
+				r.res.TimeJumps++
+				r.res.SimTime += q
+				continue
+			}
 			break
 		}
 		if r.steps >= r.cfg.MaxSteps {
